@@ -105,7 +105,7 @@ def _draw_layout(rng, *, max_features=12, min_samples=14, max_samples=30, allow_
         if container == "ds" and rng.random() < 0.4:
             d["ds_attrs"] = pick()
     if rng.random() < 0.15 and container == "da":
-        d["extra_coord"] = True
+        d["extra_coord"] = rng.choice([True, "both"])
     if rng.random() < 0.15 and not two_s:
         d["perm_seed"] = rng.randrange(1, 1000)
     return d
